@@ -83,6 +83,86 @@ theorem slice_filled (bs buf : Bytes) (hs : bs.length < 2 ^ 64) :
     simp
   · simp [h]
 
+/-- the outcome of the model's `readExact` in the vocabulary of the generated code -/
+def exOf : ExactRes → Rs.RdRes
+  | .ok bs => .ok bs
+  | .err e => .err e
+  | .panic => .panic
+
+/-- std's `read_exact` loop over a model source is the model's `readExactAux` -/
+theorem readExactAux_readOf (inner : Src σ) (fuel : Nat) (s : σ) (n : Nat) :
+    @Rs.L.readExactAux σ (readOf inner) fuel s n =
+      (exOf (readExactAux inner fuel s n).1, (readExactAux inner fuel s n).2) := by
+  induction fuel generalizing s n with
+  | zero => cases n <;> rfl
+  | succ f ih =>
+    cases n with
+    | zero => rfl
+    | succ n =>
+      simp only [Rs.L.readExactAux, readExactAux, rd_readOf]
+      rcases inner.rd s (n + 1) with ⟨r, s'⟩
+      cases r with
+      | err e => rfl
+      | panic => rfl
+      | ok bs =>
+        simp only [rdOf]
+        by_cases hb : bs = []
+        · simp [hb, exOf]
+        · simp only [hb, if_false]
+          by_cases hl : bs.length ≤ n + 1
+          · simp only [hl, if_true, ih]
+            rcases readExactAux inner f s' (n + 1 - bs.length) with ⟨r2, s2⟩
+            cases r2 <;> rfl
+          · simp [hl, exOf]
+
+/-- a successful `read_exact` filled the whole buffer -/
+theorem readExactAux_len (inner : Src σ) (fuel : Nat) (s : σ) (n : Nat) (bs : Bytes) (s' : σ)
+    (h : readExactAux inner fuel s n = (.ok bs, s')) : bs.length = n := by
+  induction fuel generalizing s n bs s' with
+  | zero =>
+    cases n with
+    | zero => simp [readExactAux] at h; simp [h.1.symm]
+    | succ n => simp [readExactAux] at h
+  | succ f ih =>
+    cases n with
+    | zero => simp [readExactAux] at h; simp [h.1.symm]
+    | succ n =>
+      simp only [readExactAux] at h
+      rcases hr : inner.rd s (n + 1) with ⟨r, s1⟩
+      rw [hr] at h
+      cases r with
+      | err e => simp at h
+      | panic => simp at h
+      | ok b1 =>
+        simp only at h
+        by_cases hb : b1 = []
+        · simp [hb] at h
+        · simp only [hb, if_false] at h
+          by_cases hl : b1.length ≤ n + 1
+          · simp only [hl, if_true] at h
+            rcases h2 : readExactAux inner f s1 (n + 1 - b1.length) with ⟨r2, s2⟩
+            rw [h2] at h
+            cases r2 with
+            | ok rest =>
+              simp only [Prod.mk.injEq, ExactRes.ok.injEq] at h
+              have := ih _ _ _ _ h2
+              rw [← h.1, List.length_append, this]; omega
+            | err e => simp at h
+            | panic => simp at h
+          · simp [hl] at h
+
+/-- `inner.read_exact(buf)` over a model source -/
+theorem read_exact_readOf (inner : Src σ) (s : σ) (buf : Bytes) :
+    @Rs.L.read_exact σ (readOf inner) s buf =
+      match readExact inner s buf.length with
+      | (.ok bs, s') => (.ok (), s', bs)
+      | (.err e, s') => (.err e, s', buf)
+      | (.panic, s') => (.panic, s', buf) := by
+  unfold Rs.L.read_exact readExact
+  rw [readExactAux_readOf]
+  rcases readExactAux inner buf.length s buf.length with ⟨r, s'⟩
+  cases r <;> rfl
+
 /-- `Crc32Reader::new` starts the hasher at the initial register. -/
 theorem tie_crc32reader_new (inner : σ) (checksum : UInt32) (ae2 : Bool) :
     Gen.Crc32Reader.new inner checksum ae2 = some ⟨inner, ⟨Spec.Crc32.init⟩, checksum, ae2⟩ := rfl
